@@ -613,3 +613,365 @@ pub fn child_panic(w: usize, n: usize, fail: usize) -> ! {
     println!("stream ended after {got} items");
     std::process::exit(0)
 }
+
+// ---------------------------------------------------------------------------
+// Buffered (C09): background producer thread + bounded / rendezvous channel.
+// No library hook is needed: the upstream iterator is the schedule point.
+//
+// Events: PullReq (producer entered next()), Pull{x,k} (next() returned item x / exhausted),
+//         Recv{x} / End / Drop (consumer), ProducerExited (upstream iterator dropped), Stuck.
+
+struct BInner {
+    log: Vec<Value>,
+    req: u64,      // number of times the producer arrived at next()
+    grants: u64,   // number of pulls granted
+    exited: bool,
+    pulls: usize,
+    kill: bool, // verdict reached: end a runaway producer
+}
+
+struct BCtl {
+    free: bool,
+    m: Mutex<BInner>,
+    cv: Condvar,
+}
+
+struct BSrc {
+    next: usize,
+    n: usize,
+    ctl: Arc<BCtl>,
+}
+
+impl Iterator for BSrc {
+    type Item = usize;
+    fn next(&mut self) -> Option<usize> {
+        let mut g = self.ctl.m.lock().unwrap();
+        if !self.ctl.free {
+            g.log.push(json!({"e": "PullReq", "w": 0, "x": self.next, "k": true}));
+            g.req += 1;
+            self.ctl.cv.notify_all();
+            while g.grants < g.req {
+                g = self.ctl.cv.wait(g).unwrap();
+            }
+        }
+        if g.kill {
+            return None;
+        }
+        if self.next < self.n {
+            let x = self.next;
+            self.next += 1;
+            g.pulls += 1;
+            if g.log.len() < 2000 {
+                g.log.push(json!({"e": "Pull", "w": 0, "x": x, "k": true}));
+            }
+            Some(x)
+        } else {
+            g.log.push(json!({"e": "Pull", "w": 0, "x": self.next, "k": false}));
+            None
+        }
+    }
+}
+
+impl Drop for BSrc {
+    fn drop(&mut self) {
+        let mut g = self.ctl.m.lock().unwrap();
+        g.log.push(json!({"e": "ProducerExited", "w": 0, "x": 0, "k": true}));
+        g.exited = true;
+        self.ctl.cv.notify_all();
+    }
+}
+
+fn run_buffered_controlled(cap: usize, n: usize, sched: &[String], blocking: bool) -> Value {
+    use text_utils::data::loading::BufferedIterator;
+    let ctl = Arc::new(BCtl {
+        free: false,
+        m: Mutex::new(BInner { log: vec![], req: 0, grants: 0, exited: false, pulls: 0, kill: false }),
+        cv: Condvar::new(),
+    });
+    let src = BSrc { next: 0, n, ctl: ctl.clone() };
+    let mut buf = Some(src.buffered(cap));
+    // controller's model of the channel
+    let mut sent = 0usize; // sends believed completed
+    let mut recvd = 0usize;
+    let mut holding = false; // producer holds an item whose send has not completed
+    let cons_fin = Cell::new(false);
+    let mut closed = false;
+    let mut acts: Vec<String> = vec![];
+    let mut executed: Vec<String> = vec![];
+
+    // wait for a producer arrival (next PullReq) or exit
+    let wait_arrival = |want_req: u64, limit: Duration| -> bool {
+        let mut g = ctl.m.lock().unwrap();
+        let t0 = Instant::now();
+        while g.req < want_req && !g.exited {
+            let (g2, _) = ctl.cv.wait_timeout(g, Duration::from_millis(5)).unwrap();
+            g = g2;
+            if t0.elapsed() > limit {
+                return false;
+            }
+        }
+        true
+    };
+    let mut stuck = !wait_arrival(1, STEP_TIMEOUT);
+    if stuck {
+        ctl.m.lock().unwrap().log.push(json!({"e": "Stuck", "w": 0, "x": 0, "k": false}));
+    }
+
+    let mut step = |tok: &str, force: bool, buf: &mut Option<text_utils::data::loading::Buffered<usize>>| -> bool {
+        match tok {
+            "p" => {
+                let (req, grants, exited) = {
+                    let g = ctl.m.lock().unwrap();
+                    (g.req, g.grants, g.exited)
+                };
+                if exited || req == grants {
+                    return false; // producer gone, or still inside send()
+                }
+                {
+                    let mut g = ctl.m.lock().unwrap();
+                    g.grants += 1;
+                    ctl.cv.notify_all();
+                }
+                let exhausted = (sent + if holding { 1 } else { 0 }) >= n;
+                if exhausted {
+                    // next() returns None, the producer thread ends
+                    if !wait_arrival(u64::MAX, STEP_TIMEOUT) {
+                        ctl.m.lock().unwrap().log.push(json!({"e": "Stuck", "w": 1, "x": 1, "k": false}));
+                    }
+                    acts.push("PullNone".into());
+                    return true;
+                }
+                // the producer now holds an item and calls send()
+                let room = closed || (cap > 0 && sent - recvd < cap);
+                if room {
+                    if !closed {
+                        sent += 1;
+                    }
+                    if !wait_arrival(req + 1, STEP_TIMEOUT) {
+                        ctl.m.lock().unwrap().log.push(json!({"e": "Stuck", "w": 1, "x": 2, "k": false}));
+                    }
+                } else {
+                    holding = true;
+                }
+                acts.push("Pull".into());
+                true
+            }
+            "c" => {
+                if cons_fin.get() {
+                    return false;
+                }
+                let exited = ctl.m.lock().unwrap().exited;
+                let available = sent > recvd || holding || exited;
+                if !available && !force {
+                    return false;
+                }
+                if !available {
+                    // would block forever on conforming code: never forced into
+                    return false;
+                }
+                let req = ctl.m.lock().unwrap().req;
+                let r = buf.as_mut().unwrap().next();
+                match r {
+                    Some(x) => {
+                        ctl.m.lock().unwrap().log.push(json!({"e": "Recv", "w": 0, "x": x, "k": true}));
+                        recvd += 1;
+                        if holding {
+                            // the blocked send completes (directly, or into the freed slot)
+                            holding = false;
+                            sent += 1;
+                            if !wait_arrival(req + 1, STEP_TIMEOUT) {
+                                ctl.m.lock().unwrap().log.push(json!({"e": "Stuck", "w": 1, "x": 3, "k": false}));
+                            }
+                        }
+                        acts.push("Recv".into());
+                    }
+                    None => {
+                        ctl.m.lock().unwrap().log.push(json!({"e": "End", "w": 0, "x": 0, "k": true}));
+                        cons_fin.set(true);
+                        acts.push("End".into());
+                    }
+                }
+                true
+            }
+            _ => {
+                if cons_fin.get() {
+                    return false;
+                }
+                let req = ctl.m.lock().unwrap().req;
+                ctl.m.lock().unwrap().log.push(json!({"e": "Drop", "w": 0, "x": 0, "k": true}));
+                drop(buf.take());
+                cons_fin.set(true);
+                closed = true;
+                if holding {
+                    // the blocked send fails; the producer either exits or asks for the next item
+                    holding = false;
+                    if !wait_arrival(req + 1, STEP_TIMEOUT) {
+                        ctl.m.lock().unwrap().log.push(json!({"e": "Stuck", "w": 1, "x": 4, "k": false}));
+                    }
+                }
+                acts.push("Drop".into());
+                true
+            }
+        }
+    };
+    let _ = blocking;
+    if !stuck {
+        for tok in sched {
+            if step(tok, false, &mut buf) {
+                executed.push(tok.clone());
+            }
+        }
+        // drain
+        let cap_steps = 20 * (n + 4);
+        let mut steps = 0;
+        loop {
+            let exited = ctl.m.lock().unwrap().exited;
+            if cons_fin.get() && exited {
+                break;
+            }
+            let mut any = false;
+            if step("p", false, &mut buf) {
+                executed.push("p".into());
+                any = true;
+            }
+            if !cons_fin.get() && step("c", false, &mut buf) {
+                executed.push("c".into());
+                any = true;
+            }
+            steps += 1;
+            if !any {
+                std::thread::sleep(Duration::from_millis(2));
+            }
+            if steps > cap_steps {
+                ctl.m.lock().unwrap().log.push(json!({"e": "Stuck", "w": 0, "x": 5, "k": false}));
+                stuck = true;
+                break;
+            }
+        }
+    }
+    let _ = stuck;
+    let g = ctl.m.lock().unwrap();
+    json!({"st": "ok", "mode": "buffered", "ctl": "controlled", "W": 1, "N": n, "cap": cap, "ev": g.log.clone(),
+           "acts": acts, "sched": executed, "drained": true, "path": []})
+}
+
+/// Free-running Buffered run; `n` may be "effectively unbounded".
+fn run_buffered_free(cap: usize, n: usize, seed: u64, drop_after: Option<usize>, slow: f64) -> Value {
+    use text_utils::data::loading::BufferedIterator;
+    let ctl = Arc::new(BCtl {
+        free: true,
+        m: Mutex::new(BInner { log: vec![], req: 0, grants: 0, exited: false, pulls: 0, kill: false }),
+        cv: Condvar::new(),
+    });
+    let src = BSrc { next: 0, n, ctl: ctl.clone() };
+    let mut buf = src.buffered(cap);
+    let mut rng = ChaCha8Rng::seed_from_u64(seed);
+    let mut got = 0usize;
+    let mut dropped = false;
+    loop {
+        if Some(got) == drop_after {
+            std::thread::sleep(Duration::from_millis(3));
+            dropped = true;
+            break;
+        }
+        if rng.random::<f64>() < slow {
+            std::thread::sleep(Duration::from_micros(rng.random_range(50..1500)));
+        }
+        match buf.next() {
+            Some(x) => {
+                ctl.m.lock().unwrap().log.push(json!({"e": "Recv", "w": 0, "x": x, "k": true}));
+                got += 1;
+            }
+            None => {
+                ctl.m.lock().unwrap().log.push(json!({"e": "End", "w": 0, "x": 0, "k": true}));
+                break;
+            }
+        }
+    }
+    drop(buf);
+    if dropped {
+        // logged after the real drop: pulls in between count as "before", which only weakens the check
+        ctl.m.lock().unwrap().log.push(json!({"e": "Drop", "w": 0, "x": 0, "k": true}));
+    }
+    // deterministic exit signal: the upstream iterator is dropped when the producer thread ends
+    let mut stuck_pulls = (0usize, 0usize);
+    {
+        let mut g = ctl.m.lock().unwrap();
+        let t0 = Instant::now();
+        while !g.exited {
+            let (g2, _) = ctl.cv.wait_timeout(g, Duration::from_millis(10)).unwrap();
+            g = g2;
+            if t0.elapsed() > Duration::from_secs(3) {
+                let p1 = g.pulls;
+                drop(g);
+                std::thread::sleep(Duration::from_millis(100));
+                g = ctl.m.lock().unwrap();
+                stuck_pulls = (p1, g.pulls);
+                // keep the log small: the pull events of a runaway producer are summarised
+                g.log.push(json!({"e": "Stuck", "w": 0, "x": 6, "k": false}));
+                g.kill = true;
+                break;
+            }
+        }
+    }
+    let g = ctl.m.lock().unwrap();
+    // a runaway producer logs millions of pulls: keep the first 200 events and the counts
+    let total_pulls = g.pulls;
+    let mut ev: Vec<Value> = g.log.iter().take(400).cloned().collect();
+    if g.log.len() > 400 {
+        ev.push(json!({"e": "Stuck", "w": 0, "x": 7, "k": false}));
+    }
+    json!({"st": "ok", "mode": "buffered", "ctl": "free", "W": 1, "N": if n > 1_000_000 { 1_000_000 } else { n },
+           "cap": cap, "ev": ev, "acts": [], "sched": [], "drained": true, "path": [], "seed": seed,
+           "total_pulls": total_pulls.min(1_000_000_000), "still_pulling": [stuck_pulls.0.min(1_000_000_000), stuck_pulls.1.min(1_000_000_000)]})
+}
+
+pub fn exec_buffered(case: &Value) -> Vec<Value> {
+    let cap = get_u(case, "cap");
+    let n = if get_bool(case, "unbounded") { usize::MAX } else { get_u(case, "N") };
+    let mut r = if get_str(case, "ctl") == "free" {
+        let d = case.get("drop_after").and_then(|x| x.as_u64()).map(|x| x as usize);
+        run_buffered_free(cap, n, case.get("seed").and_then(|x| x.as_u64()).unwrap_or(0), d,
+                          case.get("slow").and_then(|x| x.as_f64()).unwrap_or(0.2))
+    } else {
+        let sched: Vec<String> = case["sched"]
+            .as_array()
+            .map(|a| a.iter().map(|x| x.as_str().unwrap().to_string()).collect())
+            .unwrap_or_default();
+        run_buffered_controlled(cap, n, &sched, false)
+    };
+    r["case"] = case.clone();
+    if let Some(p) = case.get("path") {
+        r["path"] = p.clone();
+    }
+    vec![r]
+}
+
+pub fn gen_buffered(seed: u64, n: usize) -> Vec<Value> {
+    let mut rng = ChaCha8Rng::seed_from_u64(seed);
+    let mut out = vec![];
+    for i in 0..n {
+        let cap = [0usize, 1, 2, 3, 16][rng.random_range(0..5)];
+        if i % 4 == 3 {
+            let unb = rng.random_bool(0.5);
+            let nn = rng.random_range(0..60usize);
+            let drop_after = if unb || rng.random_bool(0.5) { Some(rng.random_range(0..=10usize)) } else { None };
+            out.push(json!({"mode": "buffered", "ctl": "free", "cap": cap, "N": nn, "unbounded": unb,
+                            "seed": rng.random::<u32>(), "drop_after": drop_after,
+                            "slow": if rng.random_bool(0.5) { 0.8 } else { 0.1 }}));
+            continue;
+        }
+        let nn = rng.random_range(0..=8usize);
+        let len = rng.random_range(0..(3 * (nn + 2)));
+        let p_drop = if rng.random_bool(0.6) { 0.08 } else { 0.0 };
+        let p_cons = [0.2, 0.5, 0.7][rng.random_range(0..3)];
+        let sched: Vec<String> = (0..len)
+            .map(|_| {
+                let x: f64 = rng.random();
+                if x < p_drop { "x" } else if x < p_drop + p_cons { "c" } else { "p" }.to_string()
+            })
+            .collect();
+        out.push(json!({"mode": "buffered", "ctl": "controlled", "cap": cap, "N": nn, "sched": sched}));
+    }
+    out
+}
